@@ -65,14 +65,18 @@ BOUNDS = {
     'quick': {'builders': 'rectangular nx,ny in 1..3 x convention 0..3 x atmosphere 0..2; from_gmsh x 2 files; from_amesh; '
                           'the 7 shipped geometry files (depth 0, invariant only)',
               'seeds': ['rect2x2', 'rect3x2', 'mixed6', 'g7', 'rect2x2L (left-justified names)',
-                        'rect2x1n (atmosphere layer named like a subsurface layer, as g4.dat)'],
-              'depth': {'rect2x2': 2, 'rect3x2': 2, 'mixed6': 2, 'g7': 1, 'rect2x2L': 2, 'rect2x1n': 2},
+                        'rect2x1n (atmosphere layer named like a subsurface layer, as g4.dat)',
+                        'hang7r0..6 (a 7-node column with three straight mid-side nodes among six quadrilaterals, '
+                        'node list started at each of its 7 nodes)'],
+              'depth': {'rect2x2': 2, 'rect3x2': 2, 'mixed6': 2, 'g7': 1, 'rect2x2L': 2, 'rect2x1n': 2, 'hang7r0': 2,
+                        'hang7r1': 1, 'hang7r2': 1, 'hang7r3': 1, 'hang7r4': 1, 'hang7r5': 1, 'hang7r6': 1},
               'subsets_depth0': 'every non-empty column subset (<= 6 columns)',
               'subsets_deeper': 'singles and the full set; single-object arguments (split_column quad, delete_column, '
                                 'rename, connection, layer): the first and the last canonical candidate'},
     'thorough': {'builders': 'as quick',
-                 'seeds': ['rect2x2', 'rect3x2', 'mixed6', 'g7', 'rect2x2L', 'rect2x1n'],
-                 'depth': {'rect2x2': 3, 'rect3x2': 2, 'mixed6': 3, 'g7': 1, 'rect2x2L': 2, 'rect2x1n': 3},
+                 'seeds': ['rect2x2', 'rect3x2', 'mixed6', 'g7', 'rect2x2L', 'rect2x1n', 'hang7r0..6'],
+                 'depth': {'rect2x2': 3, 'rect3x2': 2, 'mixed6': 3, 'g7': 1, 'rect2x2L': 2, 'rect2x1n': 3, 'hang7r0': 2,
+                           'hang7r1': 2, 'hang7r2': 2, 'hang7r3': 2, 'hang7r4': 2, 'hang7r5': 2, 'hang7r6': 2},
                  'subsets_depth0': 'every non-empty column subset (<= 6 columns); g7: singles on a stride, one pair, full set',
                  'subsets_depth1': 'all subsets while <= 6 columns, otherwise singles, pairs of neighbours and the full set',
                  'subsets_depth2': 'singles (first/last) and the full set, reduced alphabet'},
@@ -100,7 +104,10 @@ def quiet():
 
 
 def rc(v):
-    return round(float(v), R_COORD) + 0.0
+    v = float(v)
+    if v != v:
+        return 'nan'        # (compares equal to itself, unlike the float)
+    return round(v, R_COORD) + 0.0
 
 
 def npos(n):
@@ -428,6 +435,44 @@ def seed_mixed():
     return geo
 
 
+HANG_NODES = [('c0', 20, 0), ('c1', 40, 0), ('mR', 40, 10), ('c2', 40, 20), ('mT', 30, 20), ('c3', 20, 20),
+              ('mL', 20, 10), ('l0', 0, 0), ('l1', 0, 10), ('l2', 0, 20), ('r0', 60, 0), ('r1', 60, 10), ('r2', 60, 20),
+              ('t0', 20, 40), ('t1', 30, 40), ('t2', 40, 40)]
+HANG_RING = ['c0', 'c1', 'mR', 'c2', 'mT', 'c3', 'mL']
+HANG_COLS = [('L1', ['l0', 'c0', 'mL', 'l1']), ('L2', ['l1', 'mL', 'c3', 'l2']), ('R1', ['c1', 'r0', 'r1', 'mR']),
+             ('R2', ['mR', 'r1', 'r2', 'c2']), ('T1', ['c3', 'mT', 't1', 't0']), ('T2', ['mT', 'c2', 't2', 't1'])]
+
+
+def seed_hang7(rot):
+    """A quadrilateral whose left, right and top neighbours have been refined once and the bottom side lies on the
+    boundary: a 7-node column with three straight mid-side nodes (what one-sided refinement leaves), node list
+    starting at position 'rot' of the ring; six quadrilateral neighbours."""
+    import mulgrids
+    import numpy as np
+    with quiet():
+        geo = mulgrids.mulgrid(convention=0, atmos_type=2)
+        nm = {}
+        for k, (name, x, y) in enumerate(HANG_NODES):
+            nm[name] = geo.node_name_from_number(k + 1)
+            geo.add_node(mulgrids.node(nm[name], np.array([float(x), float(y)])))
+        ring = HANG_RING[rot:] + HANG_RING[:rot]
+        geo.add_column(mulgrids.column(geo.column_name_from_number(1), [geo.node[nm[n]] for n in ring]))
+        for k, (cname, ns) in enumerate(HANG_COLS):
+            geo.add_column(mulgrids.column(geo.column_name_from_number(k + 2), [geo.node[nm[n]] for n in ns]))
+        m = mesh_of(geo)
+        byid = dict((id(c), c) for c in geo.columnlist)
+        pairs = sorted(tuple(sorted((byid[a].name, byid[b].name))) for a, b in (tuple(k) for k in m.adjacent_pairs()))
+        for a, b in pairs:
+            geo.add_connection(mulgrids.connection([geo.column[a], geo.column[b]]))
+        geo.add_layers([10., 10.], 0.)
+        geo.set_default_surface()
+        col = geo.columnlist[0]
+        col.surface = -6.
+        geo.set_column_num_layers(col)
+        _finish(geo)
+    return geo
+
+
 def seed_g7():
     import mulgrids
     with quiet():
@@ -449,6 +494,8 @@ def make_seed(name):
         geo = seed_rect(2, 2, 2, [(3, -7.)], justify='l')          # left-justified names
     elif name == 'rect2x1n':
         geo = seed_rect(2, 1, 0, [(1, -7.)], atm_like_layer=True)
+    elif name.startswith('hang7r'):
+        geo = seed_hang7(int(name[len('hang7r'):]))
     else:
         raise core.HarnessError('unknown seed %r' % name)
     return {'geo': geo, 'hist': [], 'seed': name, 'valid': True, 'src': [], 'src_canon': []}
@@ -694,6 +741,41 @@ def fit_data(geo):
     return np.array(data)
 
 
+def same_value(a, b):
+    """Equality that also requires equal types element by element (a list of names that has become a list of
+    column objects is not the same argument)."""
+    if type(a) is not type(b):
+        return False
+    if isinstance(a, (list, tuple)):
+        return len(a) == len(b) and all(same_value(x, y) for x, y in zip(a, b))
+    if isinstance(a, dict):
+        return set(a) == set(b) and all(same_value(a[k], b[k]) for k in a)
+    try:
+        import numpy as np
+        if isinstance(a, np.ndarray):
+            return a.shape == b.shape and bool(np.array_equal(a, b))
+    except ImportError:
+        pass
+    return a == b
+
+
+def do(st, name, *args, **kwargs):
+    """Calls geo.<name>(*args, **kwargs) with plain-data arguments (names, numbers, arrays), remembers the call
+    and notes whether the call changed the arguments it was given."""
+    before = copy.deepcopy((args, kwargs))
+    st['_call'] = (name, args, kwargs)
+    r = getattr(st['geo'], name)(*args, **kwargs)
+    if not same_value(before, (args, kwargs)):
+        st['_argmod'] = 'argument %r -> %r' % (before, (args, kwargs))
+    return r
+
+
+# operations whose call is repeated, with the very same argument objects, on a deep copy of the geometry taken
+# before the call ("the same list of names reused on the re-read file / on a model with the same names")
+TWIN_OPS = ('refine', 'decompose_columns', 'reduce', 'rename_column', 'rename_layer', 'refine_layers',
+            'snap_columns_to_layers', 'snap_columns_to_nearest_layers', 'translate', 'rotate')
+
+
 def apply_op(st, op):
     """Calls the library.  Returns (promise_mesh, input_class)."""
     import mulgrids
@@ -704,7 +786,7 @@ def apply_op(st, op):
     nodes = canon_nodes(geo)
     if kind == 'refine':
         S, b = op[1], op[2]
-        geo.refine([cols[i].name for i in S], bisect=b)
+        do(st, 'refine', [cols[i].name for i in S], bisect=b)
         return True, 'bisect=%s' % (b,)
     if kind == 'split_column':
         ok = geo.split_column(cols[op[1]].name, nodes[op[2]].name)
@@ -712,22 +794,22 @@ def apply_op(st, op):
             raise ValueError('split_column of a quadrilateral at one of its nodes returned %r' % (ok,))
         return True, 'quad'
     if kind == 'decompose_columns':
-        geo.decompose_columns([cols[i].name for i in op[1]])
+        do(st, 'decompose_columns', [cols[i].name for i in op[1]])
         return True, 'all' if not op[1] else 'subset'
     if kind == 'fit_surface':
-        geo.fit_surface(fit_data(geo), silent=True)
+        do(st, 'fit_surface', fit_data(geo), silent=True)
         return False, ''
     if kind == 'reduce':
-        geo.reduce([cols[i].name for i in op[1]])
+        do(st, 'reduce', [cols[i].name for i in op[1]])
         st['valid'] = True          # reduce() runs check(fix=True); re-established below by the reference
         return True, ''
     if kind == 'rename_column':
         old = [cols[i].name for i in op[1]]
         new = fresh_names(geo.column.keys(), geo.colname_length, 'z', len(old))
         if op[2] == 'str':
-            ok = geo.rename_column(old[0], new[0])
+            ok = do(st, 'rename_column', old[0], new[0])
         else:
-            ok = geo.rename_column(old, new)
+            ok = do(st, 'rename_column', old, new)
         if ok is not True:
             raise ValueError('rename_column of existing column(s) returned %r' % (ok,))
         return False, op[2]
@@ -735,9 +817,9 @@ def apply_op(st, op):
         old = [geo.layerlist[i].name for i in op[1]]
         new = fresh_names(geo.layer.keys(), geo.layername_length, 'y', len(old))
         if op[2] == 'str':
-            ok = geo.rename_layer(old[0], new[0])
+            ok = do(st, 'rename_layer', old[0], new[0])
         else:
-            ok = geo.rename_layer(old, new)
+            ok = do(st, 'rename_layer', old, new)
         if ok is not True:
             raise ValueError('rename_layer of existing layer(s) returned %r' % (ok,))
         return False, op[2]
@@ -802,7 +884,7 @@ def apply_op(st, op):
         geo.delete_well(geo.welllist[op[1]].name)
         return False, 'primitive'
     if kind == 'refine_layers':
-        geo.refine_layers([geo.layerlist[i].name for i in op[1]], factor=op[2])
+        do(st, 'refine_layers', [geo.layerlist[i].name for i in op[1]], factor=op[2])
         return False, 'factor=%d' % op[2]
     if kind == 'copy_layers_from':
         donor = layers_donor(op[1] if len(op) > 1 else 'same')
@@ -814,16 +896,16 @@ def apply_op(st, op):
         st['src'][0].translate([0., 0., 3.0])
         return False, ''
     if kind == 'snap_columns_to_layers':
-        geo.snap_columns_to_layers(5.0, [cols[i].name for i in op[1]])
+        do(st, 'snap_columns_to_layers', 5.0, [cols[i].name for i in op[1]])
         return False, 'all' if not op[1] else 'subset'
     if kind == 'snap_columns_to_nearest_layers':
-        geo.snap_columns_to_nearest_layers([cols[i].name for i in op[1]])
+        do(st, 'snap_columns_to_nearest_layers', [cols[i].name for i in op[1]])
         return False, 'all' if not op[1] else 'subset'
     if kind == 'translate':
-        geo.translate([7.5, -2.5, 3.0], wells=True)
+        do(st, 'translate', [7.5, -2.5, 3.0], wells=True)
         return False, ''
     if kind == 'rotate':
-        geo.rotate(30., wells=True)
+        do(st, 'rotate', 30., wells=True)
         return False, ''
     if kind == 'roundtrip':
         path = os.path.join(core.scratch(), 'c10_%d.dat' % os.getpid())
@@ -884,7 +966,12 @@ def step_impl(st, op, sink):
     st['hist'] = st['hist'] + [op]
     was_valid = st['valid']
     st.pop('_roundtrip', None)
+    st.pop('_call', None)
+    st.pop('_argmod', None)
     main_before = canon_geo(st['geo']) if kind == 'translate_source' else None
+    twin = None
+    if kind in TWIN_OPS:
+        twin = copy.deepcopy(st['geo'])
     try:
         with quiet():
             promise, klass = apply_op(st, op)
@@ -915,6 +1002,28 @@ def step_impl(st, op, sink):
                 hard.append(('source:' + clause, 'in the geometry the layers were copied from: ' + text))
     for k, a, b in st.pop('_roundtrip', None) or ():
         hard.append(('objects-lost', '%d %s written, %d read back' % (a, k, b)))
+    # arguments are the caller's: unchanged after the call; and the same argument objects used on a second,
+    # identical geometry must give the same result there and leave the first geometry alone
+    if st.get('_argmod'):
+        hard.append(('argument-modified', 'the call changed the arguments it was given: ' + st.pop('_argmod')[:200]))
+    call = st.pop('_call', None)
+    if twin is not None and call is not None:
+        first_after = canon_geo(geo)
+        name, args, kwargs = call
+        try:
+            with quiet():
+                getattr(twin, name)(*args, **kwargs)
+            if canon_geo(geo) != first_after:
+                hard.append(('second-object:first-changed', 'the same call with the same argument objects on a copy of '
+                             'the geometry changed the first geometry'))
+            if canon_geo(twin) != first_after:
+                hard.append(('second-object:differs', 'the same call with the same argument objects on a copy of the '
+                             'geometry (taken before the call) gives a different geometry'))
+        except core.CaseTimeout:
+            raise
+        except Exception as e:
+            hard.append(('second-object:raises-%s' % type(e).__name__, 'the same call with the same argument '
+                         'objects on a copy of the geometry raised: %s' % str(e)[:150]))
     for clause, text in hard:
         out.append(('%s|%s|%s|%s' % (ID, kind, clause, klass), 'after %s: %s' % (kind, text)))
     if hard:
@@ -962,8 +1071,12 @@ def op_class(op):
 
 # ----------------------------------------------------------------------------------- units
 
-NCHUNK = {'quick': {'rect2x2': 12, 'rect3x2': 40, 'mixed6': 8, 'g7': 8, 'rect2x2L': 12, 'rect2x1n': 4},
+NCHUNK = {'quick': {'rect2x2': 12, 'rect3x2': 40, 'mixed6': 8, 'g7': 8, 'rect2x2L': 12, 'rect2x1n': 4, 'hang7r0': 12},
           'thorough': {'rect2x2': 68, 'rect3x2': 48, 'mixed6': 40, 'g7': 8, 'rect2x2L': 16, 'rect2x1n': 16}}
+for _r in range(7):
+    NCHUNK['thorough']['hang7r%d' % _r] = 8
+    if _r:
+        NCHUNK['quick']['hang7r%d' % _r] = 1
 
 
 def builder_specs():
